@@ -82,18 +82,18 @@ Lemma route_events : forall k n, no_colon n -> n <> [] ->
 Proof. intros k n Hn Hne; destruct k; repeat split; revert n Hn Hne; family. Qed.
 
 (* data-xxx : lower-cased then camel-cased, on elements and on slots *)
-Lemma route_data_hyphen : forall k n, no_colon n ->
+Lemma route_data_hyphen : forall k n, no_colon n -> n <> [] ->
   route k (lit "data-" ++ n) = Some (lit "d:" ++ dash_to_camel (lower_str n)).
 Proof.
-  intros k n Hn. unfold route.
+  intros k n Hn Hne. unfold route.
   rewrite split_colon_one by (apply Forall_app; split; [vm_compute; no_colon_lit | assumption]).
-  destruct k; reflexivity.
+  destruct n as [|c n']; [congruence|]. destruct k; reflexivity.
 Qed.
 
 (* a plain attribute keeps its spelling on an element and is camel-cased on a <slot> *)
 Definition reserved_plain (n : str) : bool :=
   str_eqb n (lit "id") || str_eqb n (lit "slot") || str_eqb n (lit "class") || str_eqb n (lit "style") ||
-  str_eqb n (lit "name") || starts_with (lit "data-") n.
+  str_eqb n (lit "name") || is_data_hyphen n.
 
 Lemma route_plain : forall n, no_colon n -> n <> [] -> reserved_plain n = false ->
   route KView n = Some (lit "r:" ++ n) /\ route KSlot n = Some (lit "l:" ++ dash_to_camel n).
